@@ -35,6 +35,9 @@ class Event(Sized, BuildWriteable):
         else:
             self.values = np.array(values, dtype="<f4")
 
+        if self.values.ndim != 1:
+            raise TypeError("Values must be a one-dimensional sequence of numbers")
+
         if len(values) > 1 and type == EventsDataType.singleEvent:
             raise TypeError("Can't have more than one value for a single event")
 
